@@ -16,7 +16,9 @@ TRAITS = [
                                {"name": "h", "recv": "own", "args": [], "ret": "u64"}]},
     {"name": "Tb", "methods": [{"name": "f", "recv": "ref", "args": ["slice"], "ret": "Pt"},
                                {"name": "n0", "recv": "ref", "args": [], "ret": "u64"}]},
-    {"name": "Tc", "methods": [{"name": "k", "recv": "ref", "args": ["ptr", "u64", "u64", "i32"], "ret": "void"},
+    # n0 has the same name and the same shape as Tb::n0 but sits at another vtable position
+    {"name": "Tc", "methods": [{"name": "n0", "recv": "ref", "args": [], "ret": "u64"},
+                               {"name": "k", "recv": "ref", "args": ["ptr", "u64", "u64", "i32"], "ret": "void"},
                                {"name": "f2", "recv": "mut", "args": ["u64"], "ret": "i32"}]},
     # Clone-like entry that returns a new container, and a callback of a struct element
     {"name": "Td", "methods": [{"name": "dup", "recv": "ref", "args": [], "ret": "cont"},
